@@ -108,11 +108,11 @@ Definition rc_push (s : rc) (x : Z) : rc :=
   let b := (w32 (rb s + a)) mod M in
   {| ra := a; rb := b; rcount := rcount s + 1 |}.
 
+(** [push] uses [wrapping_add]: it cannot trap in the checked profile either. *)
 Definition rc_push_ck (s : rc) (x : Z) : option rc :=
-  t <- ck 32 (ra s + x) ;;
-  let a := t mod M in
-  u <- ck 32 (rb s + a) ;;
-  Some {| ra := a; rb := u mod M; rcount := rcount s + 1 |}.
+  let a := (w32 (ra s + x)) mod M in
+  let b := (w32 (rb s + a)) mod M in
+  Some {| ra := a; rb := b; rcount := rcount s + 1 |}.
 
 Definition rc_digest (s : rc) : Z := Z.lor (w32 (Z.shiftl (rb s) 16)) (ra s).
 
